@@ -90,16 +90,45 @@ fn run_seq<X: Tree>(ctx: &mut Ctx, gen: &Gen, vm: &str, ties: Option<Vec<usize>>
     qwt::verif_hooks::set_tie_script(None);
     if let Some(t) = t {
         sweep_tree(ctx, &t, &r, &o);
-        // a state obtained by deserialization must answer like the one that was serialized (every long input, a
-        // quarter of the tiny ones)
-        if vals.len() > 24 || h64(&vals) % 4 == 0 {
-            ctx.count("derived_states_swept");
-            let d = ctx.total("deserialize(serialize(..))", &o.class, 0, 0, 0, || bincode::deserialize::<X>(&bincode::serialize(&t).unwrap()).unwrap());
-            if let Some(d) = d {
-                let mut o2 = o.clone();
-                o2.class = format!("{} deserialized", o.class).trim().to_string();
-                o2.dense_limit = o.dense_limit.min(600);
-                sweep_tree(ctx, &d, &r, &o2);
+        // states obtained by deserialization or by clone_from into a value that held something else must answer like the
+        // one they copy (every long input, a quarter of the tiny ones; donors: Default, a longer sequence with a larger
+        // maximum, a shorter one with a smaller maximum)
+        let h = h64(&vals);
+        if vals.len() > 24 || h % 4 == 0 {
+            let tmax: u128 = if X::T::BITS == 128 { u128::MAX } else { (1u128 << X::T::BITS) - 1 };
+            let maxv = vals.iter().map(|x| x.to_u128()).max().unwrap_or(0);
+            let minv = vals.iter().copied().min();
+            let donors: Vec<u8> = if vals.len() > 24 { vec![0, 1, 2] } else { vec![((h / 4) % 3) as u8] };
+            let mut hows: Vec<(u8, u8)> = vec![(2, 0)];
+            hows.extend(donors.iter().map(|&d| (3u8, d)));
+            for (how, donor) in hows {
+                ctx.count("derived_states_swept");
+                let name: &'static str = if how == 2 { "deserialize(serialize(..))" } else { "clone_from" };
+                let d = ctx.total(name, &o.class, donor as u128, 0, 0, || {
+                    derived(&t, how, || {
+                        if X::HUFF {
+                            qwt::verif_hooks::set_tie_script(Some(vec![]));
+                        }
+                        let dv: Vec<X::T> = match donor {
+                            0 => return X::default(),
+                            1 => vals.iter().copied().chain(std::iter::repeat(X::T::from_u128((maxv.saturating_mul(4).saturating_add(7)).min(tmax))).take(300)).collect(),
+                            _ => vec![minv.unwrap_or(X::T::from_u128(0)); (vals.len() / 2).max(1)],
+                        };
+                        let x = X::from_vec(dv);
+                        qwt::verif_hooks::set_tie_script(None);
+                        x
+                    })
+                });
+                qwt::verif_hooks::set_tie_script(None);
+                if let Some(d) = d {
+                    let mut o2 = o.clone();
+                    o2.class = format!("{} {}", o.class, if how == 2 { "deserialized" } else { "clone_from" }).trim().to_string();
+                    o2.dense_limit = o.dense_limit.min(600);
+                    sweep_tree(ctx, &d, &r, &o2);
+                    if how == 3 {
+                        ctx.obs("clone_from(x) == x", &o2.class, donor as u128, 0, 0, Exp::Is(true), || d == t);
+                    }
+                }
             }
         }
     }
